@@ -36,6 +36,8 @@ ASSUMED = [
     "a column name is seen by the naming code only through str(name).lower() (computed by Python and shipped "
     "to the model with non-ASCII characters replaced by a sentinel of class 'other') and through == on stored names",
     "attribute probes are lower-case printable ASCII (getattr(t, 'A') / unicode-digit suffixes are not modelled)",
+    "tables in the history stream have one row (repr of a table with rows refreshes the column map through "
+    "t.shape -> Row(t, 0); a zero-row table's repr does not)",
     "reserved_ok(reserved): no reserved name r with r+'_' reserved or of the form colN_ (checked on the actual set "
     "inside Coq by the case CReserved)",
 ]
@@ -736,7 +738,7 @@ def known(case, obs, why):
             return st["res"] == ["ok"]
         if o[0] == "replace":     # the indexed form (name__N) consults nothing and rebuilds only on success
             return st["res"][0] == "idx" or re.fullmatch(r".*__\d+", st["lit"]) is None
-        return o[0] in ("append", "getattr", "row", "setitem")
+        return o[0] in ("append", "getattr", "row", "setitem", "repr")   # repr asks for t.shape -> Row(t, 0)
 
     for d, o in enumerate(ops):
         if o[0] != "dir" or "skip" in steps[d]:
